@@ -1607,6 +1607,10 @@ def preprocess_arg(arg: ColExpr, table: Table, *, agg_is_window: bool = True) ->
         if isinstance(expr, ColName):
             return table[expr.name]
 
+        if isinstance(expr, Col) and expr._uuid in table._cache.cols:
+            # take the column as the current table sees it (its type may have changed, e.g. through a `union`)
+            return table._cache.cols[expr._uuid]
+
         new = copy.copy(expr)
 
         # The grouping state is added to the copy, the caller's expression object must stay untouched (it may be
